@@ -52,7 +52,7 @@ def loadable(buf):
             _xml.xmlFreeDoc(doc)
 
 
-CMDS = ['abidiff-dmg-intact', 'abidiff-intact-dmg', 'abidiff-dmg-elf', 'abidiff-elf-dmg', 'abicompat-lib1', 'abicompat-lib2']
+CMDS = ['abidiff-dmg-intact', 'abidiff-intact-dmg', 'abidiff-dmg-elf', 'abidiff-elf-dmg', 'abicompat-lib1', 'abicompat-lib2', 'abicompat-app', 'abicompat-weak-lib', 'abicompat-weak-app']
 
 
 def make_items(ctx, only=None):
@@ -124,6 +124,12 @@ def restart_template(it, cmd, dmg, track=False, faults=None):
         tool, argv = 'abidiff', ['abidiff', it['elf'], dmg]
     elif cmd == 'abicompat-lib1':
         tool, argv = 'abicompat', ['abicompat', it['app'], dmg, it['other']]
+    elif cmd == 'abicompat-app':
+        tool, argv = 'abicompat', ['abicompat', dmg, it['other'], it['other']]
+    elif cmd == 'abicompat-weak-lib':
+        tool, argv = 'abicompat', ['abicompat', '--weak-mode', it['app'], dmg]
+    elif cmd == 'abicompat-weak-app':
+        tool, argv = 'abicompat', ['abicompat', '--weak-mode', dmg, it['other']]
     else:
         tool, argv = 'abicompat', ['abicompat', it['app'], it['other'], dmg]
     t = {'argv': argv, '_tool': tool}
